@@ -19,10 +19,12 @@ their source text (`inspect` + `ast`); no dataset is opened:
   * gen_basin_classes: per registered basin class (get_basin_classes()) its
     `basin_format`, `basin_type` and the dataset class its `_load_dataset`
     instantiates.
-  * gen_retrieve_guard: that basins_retrieve still contains the two refusals
-    of local basins (`not self._local_basins_allowed` on the dict type
-    "file" and on the class attribute basin_type == "file") and the cyclic
-    `continue` on `self._basins_ignored`.
+  * gen_retrieve_matrix / gen_cycle_guard: the real
+    `RTDCBase.basins_retrieve` is EXECUTED on stub definitions with recording
+    basin classes: for every modelled (type, format) pair whether a basin is
+    instantiated with / without permission for local basins; whether a
+    definition whose key is ignored is skipped; whether a key-less definition
+    passes a key of its own down.
 
 Proofs/C14_flags.v compares the tables with the ones Model/C14.v was written
 for.  Fails closed (raises; the Gen file is removed by the caller).
@@ -200,28 +202,92 @@ def basin_classes():
     return out
 
 
-def retrieve_guard():
+KINDS = [("internal", "h5dataset"), ("file", "hdf5"), ("remote", "http"),
+         ("remote", "s3"), ("remote", "dcor"), ("remote", "hdf5"),
+         ("internal", "hdf5")]
+
+
+def retrieve_matrix():
+    """Execute the real `RTDCBase.basins_retrieve` on stub definitions with
+    recording basin classes (same basin_type / basin_format as the real ones):
+    which (type, format) combinations are instantiated with and without
+    permission for local basins, whether a definition whose key is ignored
+    is skipped, and whether a key-less definition still passes a key of its
+    own down (so that a cycle through it is cut)."""
+    from dclab.rtdc_dataset import feat_basin
     from dclab.rtdc_dataset.core import RTDCBase
-    node = _func(RTDCBase, "basins_retrieve")
-    loop = [n for n in node.body if isinstance(n, ast.For)]
-    if len(loop) != 1:
-        raise TranslatorError("basins_retrieve: expected one loop")
-    guards = {"cyclic": False, "class": False, "type": False}
-    for st in ast.walk(loop[0]):
-        if not isinstance(st, ast.If):
-            continue
-        test = ast.unparse(st.test)
-        skips = any(isinstance(x, ast.Continue) for x in st.body)
-        if not skips:
-            continue
-        if "self._basins_ignored" in test and "in" in test:
-            guards["cyclic"] = True
-        if "basin_type" in test and "'file'" in test.replace('"', "'") \
-                and "not self._local_basins_allowed" in test:
-            guards["class"] = True
-        if test.strip() == "not self._local_basins_allowed":
-            guards["type"] = True
-    return guards
+    import warnings
+    real = feat_basin.get_basin_classes()
+    made = []
+
+    def recorder(fmt, cls):
+        class Rec:
+            basin_format = fmt
+            basin_type = cls.basin_type
+
+            def __init__(self, location, **kwargs):
+                made.append((fmt, str(location), kwargs))
+
+            def verify_basin(self, *a, **k):
+                return True
+
+            def is_available(self):
+                return True
+        return Rec
+    stubs = dict((fmt, recorder(fmt, cls)) for fmt, cls in real.items())
+
+    class Stub(RTDCBase):
+        def __init__(self, dicts, allowed, ignored):
+            super(Stub, self).__init__()
+            self._local_basins_allowed = allowed
+            self._dicts = dicts
+            self._basins_ignored = list(ignored)
+            self.path = "/nonexistent/verif-stub.rtdc"
+            self.config = {"experiment": {}, "setup": {}}
+
+        hash = "stub"
+
+        def basins_get_dicts(self):
+            return [dict(d) for d in self._dicts]
+
+    def run(dicts, allowed, ignored=()):
+        del made[:]
+        orig = feat_basin.get_basin_classes
+        feat_basin.get_basin_classes = lambda: stubs
+        try:
+            with warnings.catch_warnings():
+                warnings.simplefilter("ignore")
+                got = Stub(dicts, allowed, ignored).basins_retrieve()
+        finally:
+            feat_basin.get_basin_classes = orig
+        return list(made), got
+
+    def bdict(btype, bfmt, key="k"):
+        d = {"name": "x", "type": btype, "format": bfmt,
+             "mapping": "same", "features": None}
+        d["urls" if btype == "remote" else "paths"] = ["loc"]
+        if key is not None:
+            d["key"] = key
+        return d
+    matrix = []
+    for btype, bfmt in KINDS:
+        if bfmt not in stubs:
+            raise TranslatorError("no basin class for format %s" % bfmt)
+        row = []
+        for allowed in (True, False):
+            m, got = run([bdict(btype, bfmt)], allowed)
+            if len(m) != len(got) or len(m) > 1:
+                raise TranslatorError("unexpected instantiations for %s/%s"
+                                      % (btype, bfmt))
+            row.append(len(m) == 1)
+        matrix.append((btype, bfmt, row[0], row[1]))
+    m, _ = run([bdict("remote", "http", key="seen")], True, ignored=["seen"])
+    ignored_skipped = len(m) == 0
+    m, _ = run([bdict("remote", "http", key=None)], True, ignored=["other"])
+    keyless_keyed = (len(m) == 1
+                     and len(m[0][2].get("ignored_basins", [])) == 2
+                     and "other" in m[0][2]["ignored_basins"])
+    return matrix, ignored_skipped, keyless_keyed
 
 
 def tables():
@@ -234,9 +300,10 @@ def tables():
     if dict(la)["RTDC_Dict"] != real._local_basins_allowed:
         raise TranslatorError("RTDC_Dict: computed flag differs from a real "
                               "instance")
-    g = retrieve_guard()
+    matrix, ign, keyless = retrieve_matrix()
     return dict(local_allowed=la, has_basin_dicts=hb,
-                basin_classes=basin_classes(), guard=g)
+                basin_classes=basin_classes(), matrix=matrix,
+                ignored_skipped=ign, keyless_keyed=keyless)
 
 
 def render(t):
@@ -259,10 +326,12 @@ def render(t):
                "string)) :=\n  ["
                + ";\n   ".join("(%s, (%s, %s))" % (s(f), s(ty), s(ld))
                                for f, ty, ld in t["basin_classes"]) + "].")
-    g = t["guard"]
-    out.append("Definition gen_retrieve_guard : bool * bool * bool :=\n  "
-               "(%s, %s, %s)." % (b(g["cyclic"]), b(g["class"]),
-                                  b(g["type"])))
+    out.append("Definition gen_retrieve_matrix : list (string * (string * "
+               "(bool * bool))) :=\n  ["
+               + ";\n   ".join("(%s, (%s, (%s, %s)))" % (s(ty), s(f), b(a), b(n))
+                               for ty, f, a, n in t["matrix"]) + "].")
+    out.append("Definition gen_cycle_guard : bool * bool :=\n  (%s, %s)."
+               % (b(t["ignored_skipped"]), b(t["keyless_keyed"])))
     return "\n".join(out) + "\n"
 
 
